@@ -403,6 +403,46 @@ Section Mux.
     | (keep, rq) :: t => let '(o, c') := step q sv c keep rq in o :: run_cached q sv c' t
     end.
 
+  (** *** histories in which the MuxMapper changes between requests (pipelines are created,
+      deleted and replaced without an HTTPServer reload): the mapper is read at EVERY
+      request (mux.go serveHTTP: mi.muxMapper.GetHandler).  A mapper maps a backend name to
+      the identity of the handler currently registered under it. *)
+  Definition mapper := list (string * N).
+
+  Definition with_mapper (sv : server) (m : mapper) : server :=
+    {| sv_filter := sv_filter sv; sv_rules := sv_rules sv; sv_backends := map fst m |}.
+
+  (** identity of the handler invoked (None: no handler invoked) *)
+  Definition handler_of (m : mapper) (o : outcome) : option N :=
+    match o with Dispatched b _ => alookup b m | _ => None end.
+
+  Definition serve_mapped (sv : server) (m : mapper) (rq : request) : outcome * option N :=
+    let o := serve_nocache (with_mapper sv m) rq in (o, handler_of m o).
+
+  Definition serve_hist (sv : server) (steps : list (mapper * request)) : list (outcome * option N) :=
+    map (fun s => serve_mapped sv (fst s) (snd s)) steps.
+
+  (** *** histories with reloads (mux.reload): a reload installs a new generation with the new
+      spec and a FRESH, EMPTY route cache *)
+  Inductive op :=
+  | OReq (keep : key -> bool) (rq : request)
+  | OReload (sv' : server).
+
+  Fixpoint run_ops (q : quirks) (sv : server) (c : cache) (ops : list op) : list outcome :=
+    match ops with
+    | [] => []
+    | OReq keep rq :: t => let '(o, c') := step q sv c keep rq in o :: run_ops q sv c' t
+    | OReload sv' :: t => run_ops q sv' [] t
+    end.
+
+  (** the cache-less twin on the same history *)
+  Fixpoint ref_ops (sv : server) (ops : list op) : list outcome :=
+    match ops with
+    | [] => []
+    | OReq _ rq :: t => serve_nocache sv rq :: ref_ops sv t
+    | OReload sv' :: t => ref_ops sv' t
+    end.
+
   (** *** filters erased (C05 "as if no filter existed") *)
   Definition erase_path (p : path_entry) : path_entry :=
     {| pe_path := pe_path p; pe_prefix := pe_prefix p; pe_regexp := pe_regexp p;
